@@ -285,3 +285,91 @@ func VerifC31_decoder() {
 	}
 	vrt.Cover("C31/decoder-end")
 }
+
+// VerifC31_long_integers: representations whose integer (table index, name index or table size) is a
+// multi-byte HPACK integer of 1..L continuation bytes, all symbolic: no panic, success only if the
+// reference decoder accepts, same fields.
+func VerifC31_long_integers() {
+	firsts := []byte{0xff, 0x7f, 0x0f, 0x1f, 0x3f}
+	first := firsts[vrt.Choose("repr", len(firsts))]
+	// 8..10 continuation bytes: the integers are >= 2^49 (far beyond any table or allowed size) up to
+	// overflowing 64 bits; short multi-byte integers are covered by VerifC31_decoder
+	l := vrt.Range("cont", 8, vrt.Param("L", 10))
+	cont := vrt.Bytes("cont", l)
+	for i := 0; i < l-1; i++ {
+		vrt.Assume(cont[i]&0x80 != 0) // all but the last byte continue (otherwise the integer is shorter)
+	}
+	p := append([]byte{first}, cont...)
+	if first == 0x7f || first == 0x0f || first == 0x1f {
+		p = append(p, 0x00) // empty value string
+	}
+	allowed := uint32(vrt.Param("ALLOWED", 4096))
+	var got []fieldC31
+	d := NewDecoder(allowed, func(f HeaderField) error {
+		got = append(got, fieldC31{f.Name, f.Value, f.Sensitive})
+		return nil
+	})
+	_, err := d.Write(p)
+	if err == nil {
+		err = d.Close()
+	}
+	want, ok := refDecodeC31(p, allowed)
+	if err == nil {
+		vrt.Assert(ok, "C31/long-int-accepts-only-valid")
+		if ok {
+			vrt.Assert(len(got) == len(want), "C31/long-int-field-count")
+			if len(got) == len(want) && len(got) == 1 {
+				vrt.Assert(got[0].name == want[0].name && got[0].value == want[0].value, "C31/long-int-field-equal")
+			}
+		}
+	}
+	vrt.Cover("C31/long-int-end")
+}
+
+// VerifC31_emit_disabled: a decoder whose emit callback switches emitting off in the middle of a block
+// (what the HTTP/2 framer does once a header list is too large) must keep its dynamic table exactly as
+// a decoder that never disabled emitting: the next block decodes to the same fields.
+func VerifC31_emit_disabled() {
+	// block 1: one literal with incremental indexing, new name (1 byte) and value (1 byte), then a second one
+	n1, v1 := vrt.Byte("n1"), vrt.Byte("v1")
+	n2, v2 := vrt.Byte("n2"), vrt.Byte("v2")
+	vrt.Assume(n1 < 0x80 && v1 < 0x80 && n2 < 0x80 && v2 < 0x80)
+	blk1 := []byte{0x40, 1, n1, 1, v1, 0x40, 1, n2, 1, v2}
+	// block 2: two indexed references chosen among the first dynamic slots / just beyond
+	i1 := byte(vrt.Range("idx1", 61, 64))
+	i2 := byte(vrt.Range("idx2", 61, 64))
+	blk2 := []byte{0x80 | i1, 0x80 | i2}
+
+	run := func(disable bool) (fields []fieldC31, failed bool) {
+		var d *Decoder
+		count := 0
+		d = NewDecoder(4096, func(f HeaderField) error {
+			fields = append(fields, fieldC31{f.Name, f.Value, f.Sensitive})
+			count++
+			if disable && count == 1 {
+				d.SetEmitEnabled(false)
+			}
+			return nil
+		})
+		if _, err := d.Write(blk1); err != nil || d.Close() != nil {
+			return nil, true
+		}
+		d.SetEmitEnabled(true)
+		fields = nil
+		if _, err := d.Write(blk2); err != nil || d.Close() != nil {
+			return nil, true
+		}
+		return fields, false
+	}
+	ref, refFailed := run(false)
+	got, gotFailed := run(true)
+	vrt.Assert(refFailed == gotFailed, "C31/emit-disabled-same-verdict")
+	if !refFailed && !gotFailed {
+		vrt.Assert(len(got) == len(ref), "C31/emit-disabled-same-count")
+		if len(got) == len(ref) {
+			for i := range ref {
+				vrt.Assert(got[i].name == ref[i].name && got[i].value == ref[i].value, "C31/emit-disabled-same-fields")
+			}
+		}
+	}
+}
